@@ -56,6 +56,19 @@ func runHistory(res *Result, cfg PoolCfg, ops []HOp, tag string) error {
 
 func c14(o Opts) error {
 	res := NewResult("C14")
+	if o.Replay != "" {
+		cfg, ops, err := LoadLakeReplay(o.Replay)
+		if err != nil {
+			return err
+		}
+		if err := runHistory(res, cfg, ops, "C14"); err != nil {
+			return err
+		}
+		res.Rule = "replay of one recorded history"
+		os.WriteFile(o.Out+"/cases.v", []byte("Definition M := (@nil nat).\nPrint M.\n"), 0644)
+		res.Write(o.Out)
+		return nil
+	}
 	rng := NewRng(o.Seed)
 	n, maxLen := 60, 10
 	if o.Tier == "thorough" {
